@@ -1,23 +1,111 @@
+mod checks;
+mod driver;
+mod gen;
 mod hexs;
+mod layout;
 mod rng;
 mod seams;
 mod suite;
+mod world;
+
+use std::time::Instant;
+
+use driver::{Case, Ctx, ReplayFile, Tier};
+
+fn usage() -> ! {
+    eprintln!("usage: opaque-sim check <ID> [--tier quick|thorough] | replay <file> | selftest");
+    std::process::exit(2)
+}
+
+fn level_of(id: &str) -> &'static str {
+    match id {
+        "C03" | "C04" | "C10" | "C11" | "C13" | "C15" | "C18" => "fault_enumeration",
+        _ => "exploration",
+    }
+}
 
 fn main() {
     suite::install_panic_hook();
-    for s in suite::all_suites() {
-        let mut rng = rng::SimRng::new(1, "t");
-        let l = s.lens();
-        let setup = s.server_setup_new(&mut rng).unwrap();
-        let (st, req) = s.client_reg_start(&mut rng, b"pw").unwrap();
-        let resp = s.server_reg_start(&setup, &req, b"cid").unwrap();
-        let out = s.client_reg_finish(&mut rng, &st, b"pw", &resp, &Default::default(), &suite::KsfArg::Absent).unwrap();
-        let rec = s.server_reg_finish(&out.upload).unwrap();
-        let (cl, creq) = s.client_login_start(&mut rng, b"pw").unwrap();
-        let (sl, cresp) = s.server_login_start(&mut rng, &setup, Some(&rec), &creq, b"cid", None, &Default::default()).unwrap();
-        let fin = s.client_login_finish(&cl, b"pw", &cresp, None, &Default::default(), &suite::KsfArg::Absent).unwrap();
-        let sk = s.server_login_finish(&sl, &fin.fin).unwrap();
-        assert_eq!(sk, fin.session_key);
-        println!("{} {:?} ok", s.name(), l);
+    let args: Vec<String> = std::env::args().collect();
+    if args.len() < 2 {
+        usage()
+    }
+    let seed: u64 = std::env::var("VERIF_SEED")
+        .ok()
+        .and_then(|s| s.trim().parse().ok())
+        .unwrap_or(1);
+    let mut tier = match std::env::var("VERIF_TIER").ok().as_deref() {
+        Some("thorough") => Tier::Thorough,
+        _ => Tier::Quick,
+    };
+    let threads: usize = std::env::var("VERIF_THREADS")
+        .ok()
+        .and_then(|s| s.parse().ok())
+        .unwrap_or_else(|| std::thread::available_parallelism().map(|n| n.get()).unwrap_or(4));
+    let verif_dir = std::env::var("VERIF_DIR").unwrap_or_else(|_| "/verif".into());
+    let mut i = 2;
+    let mut pos: Vec<String> = vec![];
+    while i < args.len() {
+        match args[i].as_str() {
+            "--tier" => {
+                i += 1;
+                tier = match args.get(i).map(|s| s.as_str()) {
+                    Some("thorough") => Tier::Thorough,
+                    Some("quick") => Tier::Quick,
+                    _ => usage(),
+                }
+            }
+            x => pos.push(x.to_string()),
+        }
+        i += 1;
+    }
+    match args[1].as_str() {
+        "check" => {
+            let id: &'static str = Box::leak(pos.first().cloned().unwrap_or_else(|| usage()).into_boxed_str());
+            println!("VERIF_SEED={seed} tier={tier:?} threads={threads} check={id}");
+            let ctx = Ctx { id, tier, seed, threads, start: Instant::now(), verif_dir: verif_dir.into() };
+            let rep = match id {
+                "C01" => checks::c01::run(&ctx),
+                _ => {
+                    eprintln!("unknown check {id}");
+                    std::process::exit(2)
+                }
+            };
+            let code = driver::finish(&ctx, level_of(id), rep);
+            std::process::exit(code)
+        }
+        "replay" => {
+            let path = pos.first().cloned().unwrap_or_else(|| usage());
+            let rf: ReplayFile = serde_json::from_slice(&std::fs::read(&path).expect("read replay file")).expect("parse replay file");
+            let vs = replay(&rf);
+            if vs.is_empty() {
+                println!("replay of {path}: no violation reproduced");
+                std::process::exit(0)
+            }
+            for v in vs {
+                println!("VIOLATION property={} replay={} clause={} :: {}", rf.property, path, v.0, v.1);
+            }
+            std::process::exit(1)
+        }
+        _ => usage(),
+    }
+}
+
+/// Re-run one explicit case under its property's oracle: (clause, detail) list.
+fn replay(rf: &ReplayFile) -> Vec<(String, String)> {
+    match &rf.case {
+        Case::World(w) => {
+            let own: &[&str] = match rf.property.as_str() {
+                "C01" => checks::c01::OWN,
+                _ => &[],
+            };
+            let r = world::run_world(w);
+            r.violations
+                .into_iter()
+                .filter(|v| own.is_empty() || own.contains(&v.clause))
+                .map(|v| (v.clause.to_string(), v.detail))
+                .collect()
+        }
+        _ => vec![],
     }
 }
